@@ -103,7 +103,12 @@ func checkC03(c *Ctx) Meta {
 		if chk != nil {
 			arg = chk.Call.Args[1]
 		}
-		authGate(c, "exportKeystore:export", f, chk, arg, "passphrase", callInstrs(callsIn(f, pkgKeystore+".export")), "reading the encrypted master key for export")
+		expTargets := callInstrs(callsIn(f, pkgKeystore+".export"))
+		if len(expTargets) == 0 {
+			// export inlined: the guarded effect is the reading of the sealed keys itself
+			expTargets = callInstrs(callsIn(f, pkgKeystore+".fetchMasterHDKeys", pkgKeystore+".fetchCryptoKeys", pkgKeystore+".fetchMasterKeyParams"))
+		}
+		authGate(c, "exportKeystore:export", f, chk, arg, "passphrase", expTargets, "reading the encrypted master key for export")
 	}
 	if f := c.MustFn("C03-AUTH", "poc/wallet/keystore", "(*KeystoreManagerForPoC).ExportKeystore"); f != nil {
 		ok := false
